@@ -267,6 +267,16 @@ void MidiMappernRT::useFreeID(int ID)
 {
     if(learnQueue.empty())
         return;
+    //a controller that is bound already is not free (its report was late)
+    if(storage)
+        for(int i=0; i<storage->mapping.size(); ++i)
+            if(std::get<0>(storage->mapping[i]) == ID) {
+                //the report spent a watch that the waiting request still needs
+                char buf[64];
+                rtosc_message(buf, 64, "/midi-learn/midi-add-watch","");
+                rt_cb(buf);
+                return;
+            }
     std::string addr = std::get<0>(learnQueue.front());
     bool coarse      = std::get<1>(learnQueue.front());
 
@@ -592,9 +602,12 @@ const rtosc::Ports MidiMapperRT::ports = {
     {"midi-bind:b","",0, [](msg_t msg, RtData&d)
         {
             auto &midi = *(MidiMapperRT*)d.obj;
-            midi.pending.pop();
             MidiMapperStorage *nstorage =
                 *(MidiMapperStorage**)rtosc_argument(msg,0).b.data;
+            //a snapshot answers the reports of the controllers it maps, and
+            //only those (unMap and clear send snapshots too)
+            for(int i=0; i<nstorage->mapping.size(); ++i)
+                midi.pending.remove(std::get<0>(nstorage->mapping[i]));
             if(midi.storage) {
                 nstorage->cloneValues(*midi.storage);
                 midi.storage = nstorage;
@@ -615,9 +628,10 @@ Port MidiMapperRT::removeWatchPort(void) {
 }
 Port MidiMapperRT::bindPort(void) {
     return Port{"midi-bind:b","",0, [this](msg_t msg, RtData&) {
-        pending.pop();
         MidiMapperStorage *nstorage =
             *(MidiMapperStorage**)rtosc_argument(msg,0).b.data;
+        for(int i=0; i<nstorage->mapping.size(); ++i)
+            pending.remove(std::get<0>(nstorage->mapping[i]));
         if(storage) {
             nstorage->cloneValues(*storage);
             storage = nstorage;
